@@ -368,6 +368,164 @@ func runLog[N any](w walker[N], root N, actAt int, act func(walk.VisitorHandler)
 	return
 }
 
+// ---- hand-built SQL nodes (class "sql_children") ----------------------------------------------------------------
+//
+// The translator makes most SQL nodes by value and only well-formed ones; walk.PgSQL also takes the pointer forms and
+// whatever a caller builds. For every node below, as the root and as the only child of a *pgsql.Parenthetical:
+//   - what Enter / Visit / Exit are handed for a child IS the child the parent holds: the same dynamic type and, for
+//     a pointer, the same pointer (a copy of what a pointer points at is not part of the model);
+//   - every modelled child (the Expression-typed fields and slice elements listed per node) is entered exactly once
+//     and in field order, or the walk returns an error (a malformed node is reported, not walked in part).
+type sqlIdentityVisitor struct {
+	walk.Visitor[pgsql.SyntaxNode]
+	entered []pgsql.SyntaxNode
+	exited  []pgsql.SyntaxNode
+}
+
+func (s *sqlIdentityVisitor) Enter(n pgsql.SyntaxNode) { s.entered = append(s.entered, n) }
+func (s *sqlIdentityVisitor) Visit(n pgsql.SyntaxNode) {}
+func (s *sqlIdentityVisitor) Exit(n pgsql.SyntaxNode)  { s.exited = append(s.exited, n) }
+
+func sqlSameNode(a, b pgsql.SyntaxNode) bool {
+	va, vb := reflect.ValueOf(a), reflect.ValueOf(b)
+	if !va.IsValid() || !vb.IsValid() {
+		return va.IsValid() == vb.IsValid()
+	}
+	if va.Type() != vb.Type() {
+		return false
+	}
+	if va.Kind() == reflect.Pointer {
+		return va.Pointer() == vb.Pointer()
+	}
+	return reflect.DeepEqual(a, b)
+}
+
+func sqlHandBuilt(h *harness) {
+	lit := func(i int) pgsql.Expression { return pgsql.NewLiteral(i, pgsql.Int8) }
+	id := func(name string) pgsql.Expression { return pgsql.Identifier(name) }
+	type built struct {
+		name     string
+		node     pgsql.SyntaxNode
+		children []pgsql.SyntaxNode // the modelled children in order; nil with malformed set: an error is expected
+		malformed bool
+	}
+	var nodes []built
+	for _, lower := range []pgsql.Expression{nil, lit(1)} {
+		for _, upper := range []pgsql.Expression{nil, lit(2)} {
+			children := []pgsql.SyntaxNode{id("a")}
+			if lower != nil {
+				children = append(children, lower)
+			}
+			if upper != nil {
+				children = append(children, upper)
+			}
+			name := fmt.Sprintf("ArraySlice{a, lower=%v, upper=%v}", lower != nil, upper != nil)
+			nodes = append(nodes, built{"pgsql." + name, pgsql.ArraySlice{Expression: id("a"), Lower: lower, Upper: upper}, children, false})
+			nodes = append(nodes, built{"*pgsql." + name, &pgsql.ArraySlice{Expression: id("a"), Lower: lower, Upper: upper}, children, false})
+		}
+	}
+	for conditions := 0; conditions <= 2; conditions++ {
+		for thens := 0; thens <= 3; thens++ {
+			for _, operand := range []pgsql.Expression{nil, id("o")} {
+				for _, orElse := range []pgsql.Expression{nil, lit(9)} {
+					c := pgsql.Case{Operand: operand, Else: orElse}
+					var children []pgsql.SyntaxNode
+					if operand != nil {
+						children = append(children, operand)
+					}
+					for i := 0; i < conditions; i++ {
+						c.Conditions = append(c.Conditions, id(fmt.Sprintf("w%d", i)))
+					}
+					for i := 0; i < thens; i++ {
+						c.Then = append(c.Then, lit(10+i))
+					}
+					for i := 0; i < conditions && i < thens; i++ {
+						children = append(children, c.Conditions[i], c.Then[i])
+					}
+					if orElse != nil {
+						children = append(children, orElse)
+					}
+					name := fmt.Sprintf("Case{operand=%v, %d WHEN, %d THEN, else=%v}", operand != nil, conditions, thens, orElse != nil)
+					cp := c
+					nodes = append(nodes, built{"pgsql." + name, c, children, conditions != thens})
+					nodes = append(nodes, built{"*pgsql." + name, &cp, children, conditions != thens})
+				}
+			}
+		}
+	}
+	nodes = append(nodes,
+		built{"*pgsql.ArrayIndex", &pgsql.ArrayIndex{Expression: id("a"), Indexes: []pgsql.Expression{lit(1), lit(2)}}, nil, false},
+		built{"pgsql.ArrayIndex", pgsql.ArrayIndex{Expression: id("a"), Indexes: []pgsql.Expression{lit(1)}}, nil, false},
+		built{"*pgsql.UnaryExpression", &pgsql.UnaryExpression{Operator: pgsql.OperatorNot, Operand: id("a")}, nil, false},
+		built{"*pgsql.BinaryExpression", &pgsql.BinaryExpression{Operator: pgsql.OperatorEquals, LOperand: id("a"), ROperand: lit(1)}, nil, false},
+		built{"pgsql.BinaryExpression", pgsql.BinaryExpression{Operator: pgsql.OperatorEquals, LOperand: id("a"), ROperand: lit(1)}, nil, false},
+		built{"*pgsql.FunctionCall", &pgsql.FunctionCall{Function: pgsql.FunctionToLower, Parameters: []pgsql.Expression{id("a")}}, nil, false},
+		built{"*pgsql.AnyExpression", &pgsql.AnyExpression{Expression: id("a")}, nil, false},
+		built{"*pgsql.AllExpression", &pgsql.AllExpression{Expression: id("a")}, nil, false},
+		built{"*pgsql.Parenthetical", &pgsql.Parenthetical{Expression: id("a")}, []pgsql.SyntaxNode{id("a")}, false},
+		built{"pgsql.TypeCast", pgsql.TypeCast{Expression: id("a"), CastType: pgsql.Text}, nil, false},
+	)
+	run := func(root pgsql.SyntaxNode) (v *sqlIdentityVisitor, err error, pv any) {
+		v = &sqlIdentityVisitor{Visitor: walk.NewVisitor[pgsql.SyntaxNode]()}
+		defer func() {
+			if r := recover(); r != nil {
+				pv = r
+			}
+		}()
+		err = walk.PgSQL(root, v)
+		return
+	}
+	for _, b := range nodes {
+		for _, wrapped := range []bool{false, true} {
+			h.count("sql_children")
+			root, skip, name := b.node, 0, b.name
+			if wrapped {
+				expr, isExpr := b.node.(pgsql.Expression)
+				if !isExpr {
+					continue
+				}
+				root, skip, name = &pgsql.Parenthetical{Expression: expr}, 1, "*pgsql.Parenthetical{"+b.name+"}"
+			}
+			v, err, pv := run(root)
+			if pv != nil {
+				h.deviate("sql_children", "walk.PgSQL panics on %s: %v", name, pv)
+				continue
+			}
+			if b.malformed {
+				if err == nil {
+					h.deviate("sql_children", "walk.PgSQL walks the malformed %s without an error (entered %d nodes): some of its WHEN / THEN expressions are left out silently", name, len(v.entered))
+				}
+				continue
+			}
+			if err != nil {
+				h.deviate("sql_children", "walk.PgSQL fails on %s: %v", name, err)
+				continue
+			}
+			if len(v.entered) <= skip || !sqlSameNode(v.entered[0], root) || !sqlSameNode(v.entered[skip], b.node) {
+				got := "nothing"
+				if len(v.entered) > skip {
+					got = fmt.Sprintf("%T", v.entered[skip])
+				}
+				h.deviate("sql_children", "walk.PgSQL on %s: the visitor is handed %s where the model holds the %T itself", name, got, b.node)
+				continue
+			}
+			if len(v.exited) != len(v.entered) {
+				h.deviate("sql_children", "walk.PgSQL on %s: %d Enter and %d Exit notifications", name, len(v.entered), len(v.exited))
+			}
+			if b.children != nil {
+				got := v.entered[skip+1:]
+				ok := len(got) == len(b.children)
+				for i := 0; ok && i < len(got); i++ {
+					ok = sqlSameNode(got[i], b.children[i])
+				}
+				if !ok {
+					h.deviate("sql_children", "walk.PgSQL on %s enters the children %v, the node holds %v", name, got, b.children)
+				}
+			}
+		}
+	}
+}
+
 func sameEvents(a, b []ev, withPtr bool) int {
 	n := len(a)
 	if len(b) < n {
@@ -1644,6 +1802,7 @@ func TestVerifBoundedWalk(t *testing.T) {
 	for _, sf := range sqlRoots {
 		handlerContract(h, pgsqlWalker, sf.name, sf.root)
 	}
+	sqlHandBuilt(h)
 
 	// class 2 (needs the types of all fixtures)
 	types := make([]reflect.Type, 0, len(h.types))
@@ -1685,7 +1844,7 @@ func TestVerifBoundedWalk(t *testing.T) {
 		caps = fmt.Sprintf("stop positions up to %d, handler positions up to %d", h.stopCap, h.posCap)
 	}
 	res := map[string]any{"name": "walk",
-		"bound": fmt.Sprintf("%d parsed fixture queries, %d parsed empty-collection queries, %d models built through the API, every slice/map location of each emptied 3 ways; typed nil of %d pointer types as root and at every pointer/interface location; handler contract (SetError(nil)/SetError/SetDone/Consume) for Cypher, CypherStructural and PgSQL (%d translated queries); %s; VERIF_BOUND=%s",
+		"bound": fmt.Sprintf("%d parsed fixture queries, %d parsed empty-collection queries, %d models built through the API, every slice/map location of each emptied 3 ways; typed nil of %d pointer types as root and at every pointer/interface location; handler contract (SetError(nil)/SetError/SetDone/Consume) for Cypher, CypherStructural and PgSQL (%d translated queries); hand-built SQL nodes (ArraySlice and CASE in value and pointer form with every combination of optional parts and 0..2 WHEN x 0..3 THEN, 10 other pointer/value nodes; as root and under a parenthetical): node identity and children; %s; VERIF_BOUND=%s",
 			models, parsed-models, len(fixtures)-parsed, len(types), len(sqlRoots), caps, bound),
 		"models": models, "cases": h.cases, "exhaustive": false, "failures": failures, "failure_count": h.nfail,
 		"class_cases": h.classCases, "known_deviation_hits": h.hits,
